@@ -53,7 +53,7 @@ Theorem C13_detection : forall predict ck np w d k ins F,
 Proof. exact st_detection. Qed.
 
 Theorem C13_detection_bound : forall F d, 2 <= F -> 2 <= d -> Z.max F d + 2 <= F + d /\ F + d <= F + d + 2.
-Proof. intros F d HF Hd. split; lia. Qed.
+Proof. exact st_detection_bound. Qed.
 
 (* which nondeterminism is NOT caught (the model says so, and so does the code): a frame is saved a
    second time only by a resimulation, i.e. frames c-d+1 .. c-1 of a call made at c > d; frames 0 and 1
@@ -75,7 +75,7 @@ Theorem C13_delay_bound_is_needed :
   st_new 1 2 1 126 = Ok (st_s0 1 2 1 126) /\
   st_run (fun x => x) (fun _ _ => None) (st_s0 1 2 1 126) (st_game0 2) [[1]; [1]; [1]] =
     RunStop [[RSave 0; RAdvance [(0, Confirmed)]]; [RSave 1; RAdvance [(0, Confirmed)]]] CallPanic.
-Proof. exact (conj (st_new_ok (fun x => x) (fun _ _ => None) 1 2 1 126 ltac:(discriminate)) st_delay_bound_needed). Qed.
+Proof. exact st_delay_bound_needed_full. Qed.
 
 (* (c) builder side: every call list (unsigned arguments) whose finisher start_synctest_session returns
    a session has check_distance < max_prediction, no sparse saving and >= 1 player; the session gets
@@ -103,7 +103,7 @@ Example C13_clean_run_example :
   st_deterministic ex_ck /\
   Forall (fun vs => Z.of_nat (length vs) = 2) ex_ins /\
   (exists s g, st_run (fun x => x) ex_ck (st_s0 2 5 3 1) (st_game0 5) ex_ins =
-     RunOk s g (map (st_expected_requests 2 3 1 ex_ins) (st_zrange 0 20)) /\ length (sg_log g) = 71%nat) /\
+     RunOk s g (map (st_expected_requests 2 3 1 ex_ins) (st_zrange 0 20))) /\
   st_expected_requests 2 3 1 ex_ins 5 =
     [RLoad 2; RAdvance [(1, Confirmed); (3, Confirmed)];
      RSave 3; RAdvance [(2, Confirmed); (5, Confirmed)];
